@@ -49,6 +49,11 @@ func c17Check(c *core.Ctx, text, kind string) {
 		c.Violation("compiler-crash@"+pre.site, kind+": compiler crashed: "+firstN(pre.goPanic, 200), text, nil)
 		return
 	}
+	if pre.compileErr != nil && strings.HasPrefix(pre.compileErr.Error(), "parse: ") {
+		// every program of this check is meant to be a valid Evy program
+		c.Violation("harness-program-rejected", kind+": "+firstN(pre.compileErr.Error(), 200), text, nil)
+		return
+	}
 	if pre.compileErr != nil {
 		c.Event("compile_errors", 1)
 		c.Cover("compile-error", kind)
@@ -280,7 +285,7 @@ func c17Run(c *core.Ctx, i int) {
 			"for i := range 3\n    if i == 1\n        n = n + 10\n    else\n        n = n + 1\n    end\nend\nwhile n < 50\n    n = n + 7\n    if n > 40\n        break\n    end\nend\n",
 			"w := 0\nwhile w < 4\n    w = w + 1\n    for j := range [1 2]\n        n = n + j\n        if j == 1\n            break\n        end\n    end\nend\n",
 		}[r.Intn(3)]
-		b.WriteString(body + "done := true\n")
+		b.WriteString(body + "done := n >= 0\nif done\n    x = x + n\nend\n")
 		text := b.String()
 		c.Distinct(text)
 		c17Check(c, text, "offset-sweep")
@@ -289,7 +294,7 @@ func c17Run(c *core.Ctx, i int) {
 		c.Cover("shape", "non-ascii-strings")
 		str := []string{"héllo", "日本", "ab🌍", "🌍", "é", "aé", "x\u0301y"}[r.Intn(7)]
 		text := "s := \"" + str + "\"\nacc := \"\"\ncnt := 0\nfor ch := range s\n    acc = acc + ch\n    cnt = cnt + 1\nend\nfor range s\n    cnt = cnt + 1\nend\n" +
-			"t := s + s\nfor ch := range t\n    cnt = cnt + 1\n    if cnt > 100\n        break\n    end\nend\nu := s[0]\nv := s[:1]\nl := len s\nw := s[-1]\n"
+			"t := s + s\nfor ch := range t\n    acc = acc + ch\n    cnt = cnt + 1\n    if cnt > 100\n        break\n    end\nend\nu := s[0]\nv := s[:1]\nw := s[-1]\nacc = acc + u + v + w\n"
 		c.Distinct(text)
 		c17Check(c, text, "non-ascii")
 	case i%8 == 2:
